@@ -232,9 +232,15 @@ impl StructureChecker {
                 let warn_limit = limits.warn_threshold.unwrap_or(DEFAULT_WARN_THRESHOLD);
                 let warn_limit = ((limit as f64) * warn_limit).ceil() as usize;
 
-                // Calculate effective depth: relative to base if relative_depth is set
+                // Calculate effective depth: relative to base if relative_depth is set.
+                // The base counts the scope's leading components from the project root, so the
+                // directory is counted from there too (`stats.depth` is counted from the scan
+                // root, which may lie below the project root)
                 let effective_depth = if limits.relative_depth {
-                    stats.depth.saturating_sub(limits.base_depth)
+                    normalize_for_matching(path)
+                        .components()
+                        .count()
+                        .saturating_sub(limits.base_depth)
                 } else {
                     stats.depth
                 };
